@@ -685,3 +685,140 @@ def special_families(extended: bool = False) -> List[Tuple[str, tuple]]:
             out.append(("duration", ("cmp", "lt", ("arith", "sub", d, ("dur", du)), ("call", "now", []))))
         out.append(("guid", ("cmp", "eq", s, ("guid", "11111111-2222-3333-4444-555555555555"))))
     return out
+
+
+# ====================================================================== deep operator skeletons / same-field chains
+def tree_shapes(k: int) -> List[Any]:
+    """All binary tree shapes with k internal nodes ('L' = leaf, (l, r) = node)."""
+    if k == 0:
+        return ["L"]
+    out = []
+    for i in range(k):
+        for l in tree_shapes(i):
+            for r in tree_shapes(k - 1 - i):
+                out.append((l, r))
+    return out
+
+
+def _fill(shape, ops: Sequence[str], leaves: Sequence[tuple], mk, not_at: Optional[int], wrap_not) -> tuple:
+    """Instantiate a shape: ops / leaves are consumed left to right; node or leaf number `not_at` (pre-order) is
+    wrapped by wrap_not."""
+    it_ops, it_leaves = iter(ops), iter(leaves)
+    counter = [0]
+
+    def go(sh):
+        me = counter[0]
+        counter[0] += 1
+        if sh == "L":
+            t = next(it_leaves)
+        else:
+            op = next(it_ops)
+            l = go(sh[0])
+            r = go(sh[1])
+            t = mk(op, l, r)
+        return wrap_not(t) if me == not_at else t
+    return go(shape)
+
+
+def bool_atoms(paren_strings: bool = True) -> List[tuple]:
+    """Independent boolean atoms (each mentions another column / literal); strings contain parentheses and quotes, which
+    must not influence grouping."""
+    a, b, s, u, f, k = ("field", "a"), ("field", "b"), ("field", "s"), ("field", "u"), ("field", "f"), INT_Q
+    lp, rp = ("(", ")") if paren_strings else ("a", "%")
+    return [("cmp", "eq", a, k), ("cmp", "eq", s, ("str", lp)), ("cmp", "eq", f, ("bool", True)), ("cmp", "eq", u, ("str", rp)),
+            ("cmp", "lt", b, k)]
+
+
+def deep_bool(ks: Sequence[int], atoms: Sequence[tuple], rng: random.Random, sample_per_k: Dict[int, int]) -> List[Tuple[str, tuple]]:
+    """Every association shape of k boolean operators x every and/or assignment x an optional `not` at one position
+    (node or leaf), leaves = independent atoms; plus the same skeleton compared with false.  Sampled per k if asked."""
+    out: List[Tuple[str, tuple]] = []
+    for k in ks:
+        terms = []
+        for sh in tree_shapes(k):
+            for ops in itertools.product(("and", "or"), repeat=k):
+                for not_at in [None] + list(range(2 * k + 1)):
+                    t = _fill(sh, ops, atoms[:k + 1], lambda op, l, r: (op, l, r), not_at, lambda x: ("not", x))
+                    terms.append(t)
+        n = sample_per_k.get(k)
+        if n is not None and len(terms) > n:
+            terms = rng.sample(terms, n)
+        for t in terms:
+            out.append((f"deep-bool{k}", t))
+        for t in terms[::7]:
+            out.append((f"deep-bool{k}", ("cmp", "eq", t, ("bool", False))))
+            out.append((f"deep-bool{k}", ("cmp", "ne", ("bool", True), t)))
+    return out
+
+
+def deep_arith(ks: Sequence[int], rng: random.Random, sample_per_k: Dict[int, int], ops=("add", "sub", "mul", "div")) -> List[Tuple[str, tuple]]:
+    a, b, k1 = ("field", "a"), ("field", "b"), INT_Q
+    leaves_pool = [a, b, ("int", 1), k1, ("int", 3), a, b]
+    out: List[Tuple[str, tuple]] = []
+    for k in ks:
+        terms = []
+        for sh in tree_shapes(k):
+            for opsel in itertools.product(ops, repeat=k):
+                for not_at in (None, 1):
+                    start = (len(terms)) % 3
+                    lv = (leaves_pool[start:] + leaves_pool)[:k + 1]
+                    t = _fill(sh, opsel, lv, lambda op, l, r: ("arith", op, l, r), not_at,
+                              lambda x: x if x[0] in ("int",) else ("neg", x))
+                    terms.append(("cmp", "eq", t, k1) if len(terms) % 2 else ("cmp", "lt", b, t))
+        n = sample_per_k.get(k)
+        if n is not None and len(terms) > n:
+            terms = rng.sample(terms, n)
+        out += [(f"deep-arith{k}", t) for t in terms]
+    return out
+
+
+def same_field_chains() -> List[Tuple[str, tuple]]:
+    """or-/and-chains of 3 and 4 comparisons (eq / ne / in) on the SAME field with int / string / null literals, literal
+    on either side, with duplicates, and `not` over the chain."""
+    out: List[Tuple[str, tuple]] = []
+    a, s = ("field", "a"), ("field", "s")
+    I = lambda v: ("int", v)
+    S = lambda v: ("str", v)
+    N = ("null",)
+
+    def chain(op, parts):
+        t = parts[0]
+        for p in parts[1:]:
+            t = (op, t, p)
+        return t
+
+    def right_chain(op, parts):
+        t = parts[-1]
+        for p in reversed(parts[:-1]):
+            t = (op, p, t)
+        return t
+    for fld, lits in ((a, [I(1), N, I(5), I(1)]), (a, [I(1), I(2), I(5), N]), (s, [S("a"), N, S("%"), S("a")]), (s, [S("a"), S("b"), S(""), N])):
+        for n in (3, 4):
+            ls = lits[:n]
+            eqs = [("cmp", "eq", fld, l) for l in ls]
+            nes = [("cmp", "ne", fld, l) for l in ls]
+            left = [("cmp", "eq", l, fld) for l in ls]
+            mixed = [("cmp", "eq" if i % 2 == 0 else "ne", fld, l) for i, l in enumerate(ls)]
+            for conn in ("or", "and"):
+                for parts in (eqs, nes, left, mixed):
+                    out.append(("same-field-chain", chain(conn, parts)))
+                out.append(("same-field-chain", right_chain(conn, eqs)))
+                out.append(("same-field-chain", ("not", chain(conn, eqs))))
+                out.append(("same-field-chain", ("and", chain(conn, eqs), ("cmp", "ne", ("field", "b"), INT_Q))))
+            nonnull = [l for l in ls if l != N]
+            if len(nonnull) >= 2:
+                out.append(("same-field-chain", ("or", ("or", ("in", fld, nonnull[:2]), ("cmp", "eq", fld, N)), ("cmp", "eq", fld, nonnull[-1]))))
+                out.append(("same-field-chain", ("and", ("not", ("in", fld, nonnull[:2])), ("cmp", "ne", fld, N))))
+    return out
+
+
+def compact_family() -> List[Tuple[str, tuple, str]]:
+    """Filters whose text contains no blank at all (bare function calls) with needles made of characters that mean
+    something in URL encoding: (family, term, extra alphabet)."""
+    out = []
+    s = ("field", "s")
+    for nd in ("+", "a+", "+a", "a+b", "%25", "%41", "%2B", "%20", "&", "a=", "#", "%2"):
+        extra = "".join(sorted({c for c in nd if c not in " %'AB\\_ab"}))
+        for fn in STR_FUNCS_BOOL:
+            out.append(("compact-spelling", ("call", fn, [s, ("str", nd)]), extra))
+    return out
